@@ -308,6 +308,12 @@ func (r *transport) handleCacheHit(
 	mustValidate := (expired && ccResp.MustRevalidate()) ||
 		(hasRespNoCache && !isRespNoCacheQualified) // Unqualified no-cache: must revalidate before serving from cache
 
+	// A request with no-cache, or with a max-age the stored response exceeds, asks
+	// for validation: stale-while-revalidate does not apply to it (RFC 9111 §5.2.1).
+	reqMaxAge, hasReqMaxAge := ccReq.MaxAge()
+	reqWantsValidation := ccReq.NoCache() ||
+		(hasReqMaxAge && (reqMaxAge == 0 || age > reqMaxAge))
+
 	// RFC 8246: If response is fresh and immutable, always serve from cache unless request has no-cache
 	if !mustValidate && !freshness.IsStale && ccResp.Immutable() && !ccReq.NoCache() {
 		return r.serveFromCache(
@@ -335,8 +341,7 @@ func (r *transport) handleCacheHit(
 		)
 	}
 
-	if swr, swrValid := ccResp.StaleWhileRevalidate(); freshness.IsStale && swrValid {
-		age := freshness.Age.Value + r.clock.Since(freshness.Age.Timestamp)
+	if swr, swrValid := ccResp.StaleWhileRevalidate(); freshness.IsStale && swrValid && !reqWantsValidation {
 		staleFor := age - freshness.UsefulLife
 		if staleFor >= 0 && staleFor < swr {
 			return r.handleStaleWhileRevalidate(req, stored, urlKey, freshness, ccReq)
